@@ -3,6 +3,7 @@ C18 — History changelog and tree diff report exactly the real changes.
 -/
 import Rmk.Proofs.DiffHistory
 import Rmk.Proofs.Gindex
+import Rmk.Proofs.Leftovers
 namespace Rmk.C18
 open Rmk
 
@@ -45,6 +46,19 @@ theorem diff_sound (H : Hash) (a b : Node) (x y : Node) (hm : (x, y) ∈ getDiff
   simp at heq
   obtain ⟨rfl, rfl⟩ := heq
   exact ⟨p, getDiffPos_sound H a b p x' y' hp⟩
+
+/-- The pairs are listed strictly left to right (hence at distinct positions, none a prefix of another). -/
+theorem diff_left_to_right (H : Hash) (a b : Node) :
+    ((getDiffPos H a b).map (·.1)).Pairwise leftOf ∧ ((getDiffPos H a b).map (·.1)).Nodup :=
+  ⟨Leftovers.getDiffPos_sorted H a b, Leftovers.getDiffPos_nodup H a b⟩
+
+/-- EXACTLY the minimal differing pairs: `(p, x, y)` is reported iff `x`, `y` sit at `p` in the two
+    trees, one of them is a leaf, and the roots differ at `p` and at every prefix of `p`. -/
+theorem diff_exact (H : Hash) (a b : Node) (p : List Bool) (x y : Node) :
+    (p, x, y) ∈ getDiffPos H a b ↔
+      (getPath a p = some x ∧ getPath b p = some y ∧ (x.isLeaf = true ∨ y.isLeaf = true) ∧
+        ∀ q, q <+: p → ∀ u v, getPath a q = some u → getPath b q = some v → u.root H ≠ v.root H) :=
+  Leftovers.mem_getDiffPos_iff H a b p x y
 
 /-- Grafting the second members into the first tree (at the positions where they were found, in
     order) reproduces the second tree's root. -/
